@@ -93,4 +93,14 @@ CHECKS = {
         "note": "Only well-formed hand-overs are judged: all four simplex rows must be support points gjk really evaluated and the origin must be strictly inside (gjk returns uninitialised rows otherwise). KF-C07-epa-capacity-icosphere is matched by class.",
         "technique": "bounded-exhaustive enumeration of overlapping scenes x simplex windings on the real gjk+epa vs exhaustive SAT-axis reference",
     },
+    "C08": {
+        "text": ("mpr_penetration and mpr_intersection are executed on ~6.5e4 overlapping scenes (all 100 ordered type pairs, deviation "
+                 "bound 2 over placements incl. coincident centres and centres on the penetration axis, directions, orientations, "
+                 "sizes, offsets, margins). Checked: depth >= 0, unit/zero direction, contact position member of both colliders, "
+                 "residual overlap after translating by depth*direction <= 2e-3*L and depth >= true depth - 2e-3*L (exact over the SAT "
+                 "axes for polytopes; sound inscribed-ball lower bounds otherwise), flag agreement with mpr_intersection."),
+        "design_ref": "DESIGN.md 5 C08",
+        "note": "For smooth pairs only lower bounds are used, so a too-large residual that no inscribed ball certifies stays undecided. KF-C08-segment-contact is matched only when the position equals the midpoint of the two extreme support points in the centres-on-axis branch.",
+        "technique": "bounded-exhaustive scene-lattice exploration of the real MPR vs SAT-axis / inscribed-ball reference bounds",
+    },
 }
